@@ -11,7 +11,7 @@ THEOREMS = ["C09_clean", "C09_check_okb", "C09_output_shape", "C09_order"]
 CONE = ["Proofs/RepairProofs.v", "Proofs/WalkProofs.v", "Proofs/VTProofs.v", "Repair.v", "Coder.v", "RepairSpec.v",
         "GraphSpec.v", "CoderSpec.v", "Spec.v", "Py.v"]
 MODEL_FUNCTIONS = ["repair_dna", "path_matching", "set_vt"]
-RULE = ("generated graphs and arc subsets of order 1..3 (thorough 4), live start vertices; strands: clean walks of length "
+RULE = ("LARGE graphs of order 8 and 9 (thorough also 10; random masks trimmed to minimum out-degree 2; vertex ids beyond every 16-bit range; clean and singly edited walks, oracle only) and generated graphs and arc subsets of order 1..3 (thorough 4), live start vertices; strands: clean walks of length "
         "k..12k, walks with 1..4 edits, random strings; check absent / right / wrong / of another strand; indel handling on/off; "
         "heap limits 0.5, 1, 10, 1e3, 1e9.  Oracle: a clean walk comes back alone (or not at all when the check disagrees) "
         "with zero detected errors; every returned list is strictly increasing and every candidate reproduces the supplied "
@@ -29,6 +29,8 @@ NUC = "ACGT"
 
 
 def payloads(rng, tier):
+    for x in big_payloads(rng, tier):
+        yield x
     n = {"quick": 1500, "thorough": 25000, "search": 1500}[tier]
     kmax = {"quick": 3, "thorough": 4, "search": 2}[tier]
     for _ in range(n):
@@ -64,8 +66,31 @@ def payloads(rng, tier):
                          "kind": kind}
 
 
+def big_payloads(rng, tier):
+    """clean and singly edited walks on large graphs: vertex ids far beyond 16-bit (order 9: 262144 rows) and around it (order 8)"""
+    for k, cnt in {"quick": [(9, 10), (8, 6)], "thorough": [(9, 40), (8, 20), (10, 6)], "search": [(9, 8)]}[tier]:
+        seed = rng.randrange(1 << 16)
+        rows = gen.big_graph(k, seed)
+        live = [v for v in (rng.randrange(4 ** k) for _ in range(4000)) if any(x >= 0 for x in rows[v])]
+        big_ids = [v for v in live if v >= 32768] or live
+        for i in range(cnt):
+            if not live:
+                break
+            v0 = rng.choice(big_ids if i % 2 == 0 else live)
+            w = gen.random_walk(rng, rows, v0, rng.choice([3 * k, 6 * k, 60]))
+            if len(w) < k:
+                continue
+            s, kind = w, "clean"
+            if i % 4 == 3:
+                j = rng.randrange(k, len(w))
+                s, kind = w[:j] + rng.choice([c for c in NUC if c != w[j]]) + w[j + 1:], "edited"
+            yield "repair", {"k": k, "big": seed, "v0": v0, "s": s, "w": w, "vt": rng.choice(["none", "none", "right", "wrong"]),
+                             "indel": i % 2 == 1, "heap": 1e3, "kind": kind}
+
+
 def build(stream, p):
-    k, rows, v0, s, w = p["k"], p["rows"], p["v0"], p["s"], p["w"]
+    rows = gen.big_graph(p["k"], p["big"]) if "big" in p else p["rows"]       # large graphs are rebuilt from their seed
+    k, v0, s, w = p["k"], p["v0"], p["s"], p["w"]
     vt = None
     if p["vt"] == "right":
         vt = formula(s, 4)
@@ -74,7 +99,8 @@ def build(stream, p):
     elif p["vt"] == "wrong":
         good = formula(s, 3)
         vt = good[:-1] + NUC[(NUC.index(good[-1]) + 2) % 4]
-    call, impl = rc.repair_case_parts(rows, v0, k, s, vt, p["indel"], p["heap"], rc.read_budget(len(s), k))
+    # graphs of order >= 8 are judged by the oracle only (a million-entry accessor per protocol line is not worth it)
+    call, impl = rc.repair_case_parts(rows, v0, k, s, vt, p["indel"], p["heap"], rc.read_budget(len(s), k), no_call="big" in p)
 
     def oracle(ans, raw):
         if isinstance(raw, BaseException):
@@ -92,4 +118,4 @@ def build(stream, p):
                 return "clean walk: returned %r with %d detected errors, expected %r and 0" % (cands, st[0], want)
         return None
     return Case(stream, p, call, impl, oracle, domain=True, nontrivial=len(s) > k,
-                tags=[p["kind"], "k=%d" % k, "vt=" + p["vt"], "indel=%d" % p["indel"], "heap=%g" % p["heap"]])
+                tags=[p["kind"], "k=%d" % k] + (["large-graph"] if "big" in p else []) + [ "vt=" + p["vt"], "indel=%d" % p["indel"], "heap=%g" % p["heap"]])
